@@ -34,6 +34,13 @@ func main() {
 		}
 		return
 	}
+	if name == "preflight" {
+		if err := preflightChild(); err != nil {
+			fmt.Fprintln(os.Stderr, "preflight error:", err)
+			os.Exit(3)
+		}
+		return
+	}
 	if name == "c07child" {
 		if err := c07Child(os.Args[2:]); err != nil {
 			fmt.Fprintln(os.Stderr, "c07child error:", err)
